@@ -23,8 +23,10 @@ from typing import Callable
 from typing import ClassVar
 
 from numpy import array
+from numpy import asarray
 from numpy import float64
 from numpy import ndarray
+from numpy import ndim
 
 from gemseo.utils.metaclasses import ABCGoogleDocstringInheritanceMeta
 
@@ -191,6 +193,10 @@ class BaseGradientApproximator(metaclass=ABCGoogleDocstringInheritanceMeta):
 
         if not x_indices:
             x_indices = range(n_dim)
+        elif ndim(step) > 0 and len(step) == n_dim:
+            # One step per input component:
+            # keep the steps of the components used for the differentiation.
+            step = asarray(step)[list(x_indices)]
 
         return self._generate_perturbations(x_vect, x_indices, step)
 
